@@ -283,6 +283,13 @@ func c04Script(r *rand.Rand, id int) *sScript {
 		}
 		g.add("node-points", sOp{Kind: "np", Node: n, Points: g.batch(n, 3)})
 	}
+	// one large batch (230 points of distinct identity): it is still one batch, all or nothing
+	big := make([]sPoint, 230)
+	for i := range big {
+		big[i] = sPoint{Type: "big", Key: fmt.Sprint(i), Time: g.tick(), VBits: math.Float64bits(float64(i)), Text: "x"}
+	}
+	g.add("node-points-large", sOp{Kind: "np", Node: "n1", Points: big})
+	g.add("node-points", sOp{Kind: "np", Node: "n1", Points: g.batch("n1", 2)})
 	// a new top-level node: the instance root moves to it, in the same transaction as its edge
 	newRoot := fmt.Sprintf("r%d", id)
 	g.add("new-root", sOp{Kind: "ep", Node: newRoot, Parent: "root", Points: []sPoint{g.tombPoint(0), g.typePoint("device")}})
